@@ -230,8 +230,56 @@ def run(L, tier, only=None):
     L.ex.path_budget = None
 
 
+VERIFIED_BITSTR_FNS = {
+    # decided by the E1 families of C04 / C05 / C07 (bit-level behaviour against the bit-sequence model)
+    "new", "from", "substr", "seek", "read", "peek", "split_at", "detach", "append", "insert", "invert", "eq_with", "eq", "ne", "bits", "iter8",
+    "to_bytes", "to_bytes_with_padding", "bytestr", "slice", "len", "start", "end", "is_bytestr", "is_u8_slice", "bytes_range", "bits_range",
+    "from_int", "to_uint", "to_int", "from_f32", "to_f32", "from_f64", "to_f64", "clone", "default", "fmt", "next", "into_iter",
+    # present in the original tree, text conversions outside E1's reach (stated in DESIGN.md) - not new code
+    "from_hex_str", "to_hex_string", "from_bin_str",
+}
+
+
+def bitlevel_scan(L):
+    """MIR scan tying E2 to E1: the words of bitstr_ext.rs are decided in E2 with bitstr.rs summarised, which is sound
+    only for the bitstr.rs functions E1 has decided. Any other bitstr.rs function called from bitstr_ext.rs (new
+    bit-level code on the construction / parsing path) is reported, with a native scenario that builds and emits
+    records at non-byte positions."""
+    import re as _re
+    from e2.lemma import Obligation
+    ex = L.ex
+    bad = {}
+    n = 0
+    for name, f in ex.funcs.items():
+        if not name.startswith("bitstr_ext::") or name.startswith(("const ", "promoted")) or "tests::" in name:
+            continue
+        n += 1
+        for b in f.blocks.values():
+            t = b.term
+            if not t or t[0] != "call":
+                continue
+            cal = t[2]
+            m = _re.search(r"(?:^|[<\s])(?:bitstr::)?(?:Bitstr|BitvecBuilder)::(\w+)", cal) or _re.search(r"^<(?:bitstr::)?Bitstr as [^>]*>::(\w+)", cal)
+            if m and m.group(1) not in VERIFIED_BITSTR_FNS:
+                bad.setdefault(m.group(1), set()).add(ex._last_seg(name))
+    if n == 0:
+        L.undecided.append((L.cur, "VACUOUS scan: no bitstr_ext function found"))
+    scen = {"lines": ["eval [ |x.x| 0xab \"A\" |f| ] >bitstr", "stack", "eval drop", "intercept on", "eval |x.x| emit 0xab u8! emit |41| emit |f| emit output", "stack"],
+            "expect": [("no_panic",), ("last_result_in", ["ok"]), ("stacks_equal", [0, 1]), ("cells_are", [("bitstr", "|B5 68 3xxx|")])]}
+    if bad:
+        for fn_, callers in sorted(bad.items()):
+            ob = Obligation(L.cur, "bitstr_ext.rs builds / parses bit-strings only through the bit-level functions decided by E1 (unverified: Bitstr::%s, called from %s)" % (fn_, sorted(callers)),
+                            "violated", model={}, detail="MIR scan")
+            ob.scenario = scen
+            L.obligations.append(ob)
+    else:
+        L.obligations.append(Obligation(L.cur, "MIR scan: every bitstr.rs function called from bitstr_ext.rs (%d functions scanned) is in the E1-decided set" % n, "holds"))
+
+
 def run_c07(L, tier, only=None):
     L.ex.path_budget = 6000
+    if not only or "scan" in only:
+        L.lemma("C07 bit-level functions used by the words", bitlevel_scan)
     packs = [("u8!", 8, None), ("i16le!", 16, "Little"), ("u32be!", 32, "Big"), ("i64!", 64, None), ("f64le!", 64, "Little"), ("f32be!", 32, "Big")]
     for w, n, order in packs:
         if not only or w in only or "pack" in only:
